@@ -9,7 +9,9 @@ violation, with a failing input if the harness finds one.
 -/
 namespace Redact
 
-def expectCallsWriters : List (String × List String) := [("StringBuilder.Print", ["b.SetMode(ib.PreRedactable)", "= ifmt.Fprint(&b.Buffer, args...)"]),
+def expectCallsWriters : List (String × List String) := [("Join", ["JoinTo(&b, delim, s)", "return b.RedactableString()"]),
+  ("JoinTo", ["= reflect.ValueOf(values)", "if v.Kind() != reflect.Slice", "w.Print(values)", "return", "= v.Len()", "if i > 0", "w.Print(delim)", "w.Print(v.Index(i).Interface())"]),
+  ("StringBuilder.Print", ["b.SetMode(ib.PreRedactable)", "= ifmt.Fprint(&b.Buffer, args...)"]),
   ("StringBuilder.Printf", ["b.SetMode(ib.PreRedactable)", "= ifmt.Fprintf(&b.Buffer, format, args...)"]),
   ("StringBuilder.SafeByte", ["b.SetMode(ib.SafeEscaped)", "= b.Buffer.WriteByte(byte(s))"]),
   ("StringBuilder.SafeBytes", ["b.SetMode(ib.SafeEscaped)", "= b.Buffer.Write([]byte(s))"]),
